@@ -274,8 +274,66 @@ def gen_abandon_recycle(rng, sched_rng) -> Dict[str, Any]:
     return {"part": "A", "knobs": {"regex_maxcache": None}, "ops": ops, "strategy": "abandon-recycle"}
 
 
+def gen_orphan_gc(rng, sched_rng) -> Dict[str, Any]:
+    """Half-consumed iterators are ORPHANED (the caller's last reference goes while they sit in a
+    reference cycle), and a cyclic collection is made to happen at a drawn line INSIDE the next
+    step of another, live iterator of the same compiled query over the same document: generator
+    finalisers, finally blocks and weak-reference callbacks run in the middle of that step."""
+    roots = [x for x in SUSPEND_QUERIES if "$" in x[1:]]
+    q = rng.choice(roots) if rng.random() < 0.7 else rng.choice(SUSPEND_QUERIES)
+    tree = D.random_tree(rng, max_nodes=rng.choice((10, 20, 30)), max_depth=rng.choice((3, 4)), p_dict=0.6)
+    if not isinstance(tree, (list, dict)):
+        tree = {"a": [tree, {"a": 1}], "b": 2}
+    ops: List[Dict[str, Any]] = [
+        {"op": "new_env", "id": "e0", "spec": {"funcs": []}},
+        {"op": "new_doc", "id": "d0", "spec": {"json": tree}},
+        {"op": "compile", "id": "c0", "env": rng.choice(("e0", "module")), "q": q},
+        {"op": "iter_open", "id": "live", "c": "c0", "doc": "d0"},
+    ]
+    for k in range(rng.choice((8, 12, 20))):
+        ops.append({"op": "iter_open", "id": f"o{k}", "c": "c0", "doc": "d0"})
+        ops.append({"op": "iter_next", "it": f"o{k}", "n": sched_rng.choice((1, 1, 2))})
+        ops.append({"op": "iter_orphan", "it": f"o{k}"})
+        ops.append({"op": "arm_gc", "k": sched_rng.choice((sched_rng.randint(1, 30), sched_rng.randint(1, 80), sched_rng.randint(1, 80), sched_rng.randint(1, 400)))})
+        if sched_rng.random() < 0.75:
+            ops.append({"op": "iter_next", "it": "live", "n": sched_rng.choice((1, 1, 2, 5))})
+        else:
+            ops.append({"op": "apply", "c": "c0", "doc": "d0", "entry": sched_rng.choice(H.ENTRIES)})
+    ops.append({"op": "iter_next", "it": "live", "n": 100})
+    return {"part": "A", "knobs": {"regex_maxcache": None}, "ops": ops, "strategy": "orphan-gc"}
+
+
+def gen_reenter_same(rng, sched_rng) -> Dict[str, Any]:
+    """A filter whose function call takes several arguments -- a literal among them -- and one of
+    those arguments is a call of a user function that evaluates the SAME compiled query again
+    (completely, over other data) before it returns: the nested evaluation must leave the outer
+    one, suspended in the middle of collecting its arguments, exactly as it was."""
+    w = {"args": ["V", "V", "V"], "ret": rng.choice(("L", "V")), "behav": rng.choice(("first", "shape"))}
+    r = {"args": ["V"], "ret": "V", "behav": "reenter_same", "rdoc": [{"a": rng.randint(0, 9), "b": rng.randint(0, 9)} for _ in range(rng.randint(2, 4))]}
+    cmp_ = "" if w["ret"] == "L" else " == " + str(rng.randint(0, 9))
+    q = rng.choice(("$[?w(@.a, r(@.b), 0)%s]", "$[?w(@.a, r(@), 1)%s]", "$..[?w(@.a, r(@.b), 'x')%s]", "$[?w(r(@.b), @.a, 0)%s]", "$[?w(0, @.a, r(@.b))%s]", "$[?w(@.a, @.b, r(@))%s]")) % cmp_
+    doc = [{"a": rng.randint(0, 9), "b": rng.randint(0, 9)} for _ in range(rng.randint(3, 7))]
+    ops: List[Dict[str, Any]] = [
+        {"op": "new_env", "id": "e0", "spec": {"funcs": [["w", w], ["r", r]]}},
+        {"op": "new_doc", "id": "d0", "spec": {"json": doc}},
+        {"op": "new_doc", "id": "d1", "spec": {"json": {"x": doc, "a": 1, "b": 2}}},
+        {"op": "compile", "id": "c0", "env": "e0", "q": q},
+    ]
+    for _ in range(rng.choice((1, 2, 3))):
+        if sched_rng.random() < 0.5:
+            ops.append({"op": "apply", "c": "c0", "doc": sched_rng.choice(("d0", "d1")), "entry": sched_rng.choice(H.ENTRIES)})
+        else:
+            ops.append({"op": "iter_open", "id": f"i{len(ops)}", "c": "c0", "doc": sched_rng.choice(("d0", "d1"))})
+            ops.append({"op": "iter_next", "it": ops[-1]["id"], "n": sched_rng.choice((1, 2, 50))})
+    return {"part": "A", "knobs": {"regex_maxcache": None}, "ops": ops, "strategy": "reenter-same"}
+
+
 def gen_a(rng, sched_rng, tier: str) -> Dict[str, Any]:
     r0 = rng.random()
+    if 0.80 < r0 <= 0.86:
+        return gen_orphan_gc(rng, sched_rng)
+    if 0.86 < r0 <= 0.90:
+        return gen_reenter_same(rng, sched_rng)
     if r0 > 0.93:
         return gen_abandon_recycle(rng, sched_rng)
     if r0 < 0.06:
